@@ -363,6 +363,34 @@ def confirm(c, outs):
             if got != want: return True, f'{prof}: {text!r} parsed as {got}, reference semantics give {want}'
     return False, 'real build agrees with the reference'
 
+def validate(tier, seed, report):
+    """concrete words (prefix spelling + documented name, and random letters) through the interpreted unit parser and
+    through the native one (verif::unit_word in a loop)"""
+    import replay_client
+    rnd = random.Random(5000 + seed)
+    I = harness.interp_for('dev'); V = voc()
+    names = sorted(n for n in V.names if n.isascii()); pres = sorted(p for p in V.prefixes if p.isascii()) + ['']
+    words = [rnd.choice(pres) + rnd.choice(names) for _ in range(200 if tier == 'quick' else 2000)]
+    words += [''.join(rnd.choice('abcdefghiklmnopstuvyzACFGHJKLMNPSTVW') for _ in range(rnd.randint(1, 5))) for _ in range(100)]
+    outs = replay_client.run_profile([{'op': 'unit_seq', 'word': w} for w in words], 'dev')
+    ids = id2key(); okc = 0
+    for w, o in zip(words, outs):
+        I.reset([])
+        try: status, seq = parse_word(I, StrS.from_text(w))
+        except PathEnd as ex:
+            if ex.kind == 'panic' and 'panic' in o: okc += 1; continue
+            raise RuntimeError(f'translator validation: {w!r}: interpreter {ex.kind} {ex.info}, native {o}')
+        nat = o.get('ok')
+        if status == 'reject':
+            if nat is not None: raise RuntimeError(f'translator validation: {w!r}: interpreter rejects, native {nat}')
+        else:
+            got = []
+            for e in nat or []:
+                u = e['unit'][0][0]; got.append((u if isinstance(u, str) else ids.get(u['derived'], str(u)), e['prefix']))
+            if nat is None or got != seq: raise RuntimeError(f'translator validation: {w!r}: interpreter {seq}, native {nat}')
+        okc += 1
+    return okc
+
 def backtracking_situation(V, word):
     """does the longest-match lexer have to back up inside this word?  At some start s the longest run that is still a
     prefix of some spelling is strictly longer than the longest complete spelling at s."""
